@@ -28,7 +28,7 @@ FLOORS = {"quick": {"texts_whose_characters_look_like_colour_sequences": 500,
                     "distinct_nontrivial": 1500, "operations_checked": 40000, "slices": 4000, "formats": 4000,
                     "index_errors_agree": 300, "equality_probes": 30000, "extensions_refused_half_way": 60},
           "thorough": {"texts_whose_characters_look_like_colour_sequences": 2000,
-                       "distinct_nontrivial": 50000, "operations_checked": 2000000, "slices": 200000,
+                       "distinct_nontrivial": 37000, "operations_checked": 2000000, "slices": 200000,
                        "formats": 200000, "index_errors_agree": 15000, "equality_probes": 1500000,
                        "extensions_refused_half_way": 3000}}
 LEVEL_TEXT = ("Runtime exploration with a shadow model: every public operation on CHText / chunks is mirrored on a "
